@@ -355,6 +355,11 @@ func ConvertToJSON(val lua.LValue) string {
 		}
 		return "false"
 	case lua.LTNumber:
+		float := float64(val.(lua.LNumber))
+		if math.IsNaN(float) || math.IsInf(float, 0) {
+			// JSON has no NaN or Infinity; write them the way field values do
+			return jsonString(val.String())
+		}
 		return val.String()
 	case lua.LTString:
 		if b, err := json.Marshal(val.String()); err != nil {
@@ -378,14 +383,19 @@ func ConvertToJSON(val lua.LValue) string {
 			start = `{`
 			end = `}`
 			cb = func(lk lua.LValue, lv lua.LValue) {
-				values = append(
-					values, ConvertToJSON(lk)+`:`+ConvertToJSON(lv))
+				key := ConvertToJSON(lk)
+				if lk.Type() != lua.LTString {
+					// a JSON member name must be a string
+					key = jsonString(lk.String())
+				}
+				values = append(values, key+`:`+ConvertToJSON(lv))
 			}
 		}
 		tbl.ForEach(cb)
 		return start + strings.Join(values, `,`) + end
 	}
-	return "Unsupported lua type: " + val.Type().String()
+	// RESP mode replies with an error here; in JSON an error value is {"err":...}
+	return `{"err":` + jsonString("Unsupported lua type: "+val.Type().String()) + `}`
 }
 
 func luaSetRawGlobals(ls *lua.LState, tbl map[string]lua.LValue) {
